@@ -10,12 +10,12 @@ open Revm Revm.Model Revm.Model.Interp
 /-- tags of the instructions whose immediates refer to the container -/
 def eofTag : Instr → Nat
   | .callf => 1 | .jumpf => 2 | .eofcreate => 3 | .returnContract => 4 | .rjump => 5 | .rjumpi => 6 | .rjumpv => 7
-  | .codesize => 8 | .codecopy => 9 | _ => 0
+  | .codesize => 8 | .codecopy => 9 | .retf => 10 | _ => 0
 
 def byteTag (op : Nat) : Nat :=
   if op = 0xe3 then 1 else if op = 0xe5 then 2 else if op = 0xec then 3 else if op = 0xee then 4
   else if op = 0xe0 then 5 else if op = 0xe1 then 6 else if op = 0xe2 then 7
-  else if op = 0x38 then 8 else if op = 0x39 then 9 else 0
+  else if op = 0x38 then 8 else if op = 0x39 then 9 else if op = 0xe4 then 10 else 0
 
 /-- `instrLenOf` without the RJUMPV table -/
 def staticLen : Instr → Nat
@@ -30,6 +30,11 @@ def immOf (op : Nat) : Nat :=
   | some inf => inf.imm
   | none => 0
 
+def termOf (op : Nat) : Bool :=
+  match EofValidate.opInfo op with
+  | some inf => inf.terminating
+  | none => false
+
 def notEofOf (op : Nat) : Bool :=
   match EofValidate.opInfo op with
   | some inf => inf.notEof
@@ -37,11 +42,13 @@ def notEofOf (op : Nat) : Bool :=
 
 /-- the opcode table of C25's model (`decode`) against the opcode table of C26's model (`opInfo`, itself checked
 against `OPCODE_INFO_JUMPTABLE` of the compiled code by `Props.C26.opTable_matches_code`): same immediate sizes, the
-container-related opcodes are the same bytes, CODESIZE / CODECOPY are disabled in EOF -/
+container-related opcodes are the same bytes, CODESIZE / CODECOPY are disabled in EOF, what the validator calls
+terminating (and allows in EOF) the interpreter model calls terminating -/
 theorem opcode_tables_agree : (List.range 256).all (fun op =>
     eofTag (decode op) == byteTag op && staticLen (decode op) == 1 + immOf op &&
     ((byteTag op != 8 && byteTag op != 9) || notEofOf op) &&
-    (byteTag op != 7 || (EofValidate.opInfo op).isSome)) = true := by
+    (byteTag op != 7 || (EofValidate.opInfo op).isSome) &&
+    (!(termOf op) || notEofOf op || terminating (decode op))) = true := by
   decide +kernel
 
 end Revm.Proofs.Interp
